@@ -315,4 +315,124 @@ example :
 /-- opposite nesting orders are rejected by the order check under every ranking that accepts the first script -/
 example : orderOK id [] [.acq 2 .ex, .acq 1 .ex, .rel 1, .rel 2] = false := by decide
 
+/-! ## 3. `Cluster.Alerts()` against `alertsHandler`, all interleavings -/
+
+open Alerts in
+/-- With the result sized under `alertsMux` (the current code), for EVERY schedule of the alert
+writer and any number of readers, for every bound `maxAlerts` and every sequence of distinct,
+non-empty incoming alerts: no reader ever hits an index error, and every list `Alerts()` returns
+has no empty entry and no duplicated entry. -/
+theorem alerts_safe (maxAlerts : Nat) (pending : List Nat) (hnd : pending.Nodup) (h0 : 0 ∉ pending)
+    (todo : Nat) (sched : List Nat) (k : Nat) :
+    let s := run ⟨maxAlerts, true⟩ (init pending todo) sched
+    (s.readers k).pc ≠ .crashed ∧ ∀ l ∈ (s.readers k).outs, 0 ∉ l ∧ l.Nodup := by
+  intro s
+  have hinv : Inv s := Alerts.inv_run ⟨maxAlerts, true⟩ rfl sched (Alerts.inv_init pending hnd h0 todo)
+  exact ⟨(hinv.2 k).notCrashed, (hinv.2 k).outs⟩
+
+open Alerts in
+/-- … and every returned list is exactly the alert log at some moment, most recent first: it is the
+reverse of a list the writer had built (stated for the last call: the log while the lock was held) -/
+theorem alerts_snapshot (maxAlerts : Nat) (pending : List Nat) (hnd : pending.Nodup) (h0 : 0 ∉ pending)
+    (todo : Nat) (sched : List Nat) (k : Nat) :
+    let s := run ⟨maxAlerts, true⟩ (init pending todo) sched
+    (s.readers k).pc = .copied → (s.readers k).res = s.alerts.reverse := by
+  intro s
+  have hinv : Inv s := Alerts.inv_run ⟨maxAlerts, true⟩ rfl sched (Alerts.inv_init pending hnd h0 todo)
+  exact (hinv.2 k).copied
+
+/-- non-vacuity: a schedule in which reader 0 returns the two alerts delivered so far, newest first -/
+example : ((Alerts.run ⟨1000, true⟩ (Alerts.init [5, 6, 7] 1) [0, 0, 0, 0, 0, 0, 0, 0, 1, 1, 1, 1, 1, 1, 1]).readers 0).outs = [[6, 5]] := by
+  decide
+
+/-- REFUTED for the order before commit c03e9ef (length read before taking the lock): the reader
+sizes its result for an empty log, the writer then appends one alert, the reader locks and ranges
+over one element: index `0 - 1 - 0` is out of range. -/
+example : ((Alerts.run ⟨1000, false⟩ (Alerts.init [5] 1) [1, 0, 0, 0, 0, 1, 1, 1]).readers 0).pc = .crashed := by
+  decide
+
+/-- REFUTED, second shape (with maxAlerts = 1 to keep the schedule short): the reader sizes its
+result for two alerts, the writer resets the log and appends a third, the reader copies one
+element into a list of two: an empty entry is returned. -/
+example : ((Alerts.run ⟨1, false⟩ (Alerts.init [5, 6, 7] 1)
+    [0, 0, 0, 0, 0, 0, 0, 0, 1, 0, 0, 0, 0, 1, 1, 1, 1, 1]).readers 0).outs = [[0, 7]] := by
+  decide
+
+/-! ## 4. today's sources: the regenerated lock-fact table -/
+
+/-- every recorded access to a designated field holds its designated lock (writes exclusively),
+every designated field and mutex is still declared, immutable fields are never written outside
+their constructor literal, and the crdt batching state is published to its only reader by the go
+statement that follows its only write -/
+theorem gen_table_disciplined : tableOK Gen.guards Gen.spawns Gen.accesses = true := by decide
+
+/-- the graph of nested acquisitions (direct, or through resolved calls and interface
+implementers) is acyclic: `rankOf` is a strict order along every edge -/
+theorem gen_lock_order_acyclic : acyclicB Gen.edges = true := by decide
+
+/-- the extractor understood every construct of every function that touches a designated field
+or a mutex (fail closed) -/
+theorem gen_no_unrecognised_shapes : Gen.problems = [] := by decide
+
+/-- the table is not vacuous -/
+theorem gen_table_nonempty : 60 ≤ Gen.accesses.length ∧ 5 ≤ Gen.edges.length ∧ 15 ≤ Gen.guards.length := by decide
+
+/-- the Bool check of acyclicity exhibits a rank function (the hypothesis shape of `acyclic_no_deadlock`) -/
+theorem acyclicB_rank (edges : List (Nat × Nat)) (h : acyclicB edges = true) :
+    ∃ rank : Nat → Nat, ∀ e ∈ edges, rank e.1 < rank e.2 := by
+  refine ⟨rankOf edges, fun e he => ?_⟩
+  have := List.all_eq_true.mp h e he
+  simpa using this
+
+/-! ## 5. the Bool clauses mean what the statement says -/
+
+theorem nodupB_iff (l : List Nat) : nodupB l = true ↔ l.Nodup := by
+  induction l with
+  | nil => simp [nodupB]
+  | cons a l ih => simp [nodupB, ih]
+
+theorem list_clauses_iff (i : Input) (l : List Nat) :
+    holds i (.list l) = true ↔ (0 ∉ l ∧ l.Nodup) := by
+  simp [holds, clauses, noEmpty, nodupB_iff]
+
+theorem summary_clauses_iff (i : Input) (ops torn panics stalled races : Nat) :
+    holds i (.summary ops torn panics stalled races) = true ↔ (races = 0 ∧ panics = 0 ∧ stalled = 0 ∧ torn = 0) := by
+  simp [holds, clauses, and_assoc]
+
+/-- what the model of the alert log allows satisfies the clauses (for the driver's `allowed`) -/
+theorem descFrom_good (hi n : Nat) (h : n ≤ hi) : 0 ∉ descFrom hi n ∧ (descFrom hi n).Nodup := by
+  have mem : ∀ n hi x, x ∈ descFrom hi n → x ≤ hi ∧ hi < x + n := by
+    intro n
+    induction n with
+    | zero => intro hi x hx; simp [descFrom] at hx
+    | succ n ih =>
+      intro hi x hx
+      simp only [descFrom, List.mem_cons] at hx
+      rcases hx with rfl | hx
+      · omega
+      · have := ih (hi - 1) x hx; omega
+  refine ⟨fun h0 => ?_, ?_⟩
+  · have := mem n hi 0 h0; omega
+  · induction n generalizing hi with
+    | zero => simp [descFrom]
+    | succ n ih =>
+      simp only [descFrom, List.nodup_cons]
+      refine ⟨fun hx => ?_, ih (hi - 1) (by omega)⟩
+      have := mem n (hi - 1) hi hx
+      omega
+
+theorem lenAfter_le (mx k : Nat) : lenAfter mx k ≤ k := by
+  induction k with
+  | zero => simp [lenAfter]
+  | succ k ih =>
+    simp only [lenAfter]
+    split <;> omega
+
+/-- every list the sequential models of the alert log and of the metrics window produce satisfies
+the clauses: what the driver accepts as `allowed` is never a torn result -/
+theorem model_lists_hold (i : Input) (mx cap k : Nat) :
+    holds i (.list (alertsAfter mx k)) = true ∧ holds i (.list (windowAfter cap k)) = true := by
+  rw [list_clauses_iff, list_clauses_iff]
+  exact ⟨descFrom_good k _ (lenAfter_le mx k), descFrom_good k _ (Nat.min_le_left k cap)⟩
+
 end CV.C18
